@@ -13,8 +13,11 @@
 (*   kick[q]     "none" | "obj": the ring holds a kick descriptor           *)
 (*   pend[q]     a kick was raised on the ring's current descriptor and     *)
 (*               has not been delivered yet                                 *)
-(*   stale[q]    a kick is pending on a descriptor the ring no longer holds *)
-(*               (dispatches caused by it are not judged)                   *)
+(*   stale[q]    a kick was pending on a descriptor at the moment the ring  *)
+(*               let go of it (whether the worker had already been woken by *)
+(*               it is not determined: dispatches of that ring are not      *)
+(*               judged from then on); a kick raised on such a descriptor   *)
+(*               *afterwards* must reach nobody                             *)
 (* pfAcked: VHOST_USER_F_PROTOCOL_FEATURES acknowledged by SET_FEATURES     *)
 (***************************************************************************)
 EXTENDS Integers, Sequences, FiniteSets, TLC
@@ -47,7 +50,9 @@ LcApply(s, a) ==
                       !.stale[a.q] = s.stale[a.q] \/ s.pend[a.q], !.pend[a.q] = FALSE]
       [] a.op = "reset_device" -> [s EXCEPT !.enabled = [q \in Rings |-> FALSE], !.pfAcked = FALSE]
       [] a.op = "kick" /\ a.which = "cur" -> IF s.kick[a.q] = "obj" THEN [s EXCEPT !.pend[a.q] = TRUE] ELSE s
-      [] a.op = "kick" /\ a.which = "old" -> [s EXCEPT !.stale[a.q] = TRUE]
+      \* a kick raised on a descriptor the ring no longer holds (replaced by another one, dropped by SET_VRING_KICK without a
+      \* descriptor or by GET_VRING_BASE) reaches nobody: the ring does not poll it any more
+      [] a.op = "kick" /\ a.which \in {"old", "dropped"} -> s
       [] OTHER -> s
 
 \* does the letter succeed (ack 0)?  SET_VRING_ENABLE needs the acknowledged feature.
